@@ -329,6 +329,10 @@ def cases(tier):
                     yield {"check": "bad1", "layout": layout, "ref": kind, "cols": "both", "sample": "plain", "anti": "full", "k": k, "way": way,
                            "corr": [list(c) for c in (CORR_ALL if kind == "pooled" else CORR_ENDS)], "frac": 0.5,
                            "variants": "lite", "variants_on": "ends" if not t else "all"}
+                    if kind == "pooled" and way in EDGE and (t or layout == "A"):
+                        # a bin exactly on a filter boundary (kept) in a noisy sample: both weight estimates sit at their extremes
+                        yield {"check": "bad1", "layout": layout, "ref": kind, "cols": "both", "sample": "noisy", "anti": "full", "k": k, "way": way,
+                               "corr": [list(c) for c in CORR_ENDS], "frac": 0.5, "variants": "none"}
                     if kind == "pooled" and layout_bins(layout)[k][3] == "T":
                         # empty antitarget: nothing re-sorts / re-indexes the tables after the corrections
                         yield {"check": "bad1", "layout": layout, "ref": kind, "cols": "both", "sample": "plain", "anti": "empty", "k": k, "way": way,
